@@ -425,3 +425,30 @@ class E2Clamp(E2Actuators):
             if ok:
                 cand["host_script"] = "\n".join(host_kept) + "\n"
                 yield cand
+
+
+class E1Persist(E1Core):
+    """C05 (persistence): globals updated in the loop body keep their values across N = 0..3 passes."""
+
+    name = "e1-persist"
+    property_id = "C05"
+    rule = (
+        "core-language programs that always have a `while True:` body updating names assigned before it, each run "
+        "for N = 0, 1, 2 and 3 passes in its own seeded world; board trace must refine the CPython trace pass by pass"
+    )
+
+    def generate(self, rng, tier: str, avoid) -> dict:
+        from dst.gen.programs import GenOptions, ProgGen, random_world
+
+        opts = GenOptions(
+            max_stmts=rng.choice([8, 14, 20]),
+            max_depth=rng.choice([1, 2]),
+            use_led=rng.random() < 0.5,
+            use_lists=rng.random() < 0.4,
+            use_helpers=rng.random() < 0.4,
+            main_loop=True,
+        )
+        gen = ProgGen(rng, avoid, opts)
+        script = gen.generate()
+        worlds = [random_world(rng, script, n) for n in (0, 1, 2, 3)]
+        return {"script": script, "worlds": worlds, "features": sorted(gen.features_used)}
